@@ -418,4 +418,13 @@ def runAny (s : State) : List Ev → Option (State × List (Option Nat × Option
               | some r => some (s'', (r, s'.latest) :: outs)
               | none => some (s'', outs)
 
+/-- the schedule assumption as a predicate on a schedule: every `cacheWrite` is `ordered` in the state in which
+it is fired (`run` = `runAny` on such schedules, `none` otherwise) -/
+def orderedSched : State → List Ev → Bool
+  | _, [] => true
+  | s, e :: es =>
+      match fire s e with
+      | some (s', _) => guardOk s e && orderedSched s' es
+      | none => true
+
 end QbiceVerif.WideCacheR
